@@ -44,7 +44,7 @@ class C11(Prop):
     assumptions = ['DeepSpeed/Megatron doubles (vkit/ds_doubles) stand in for the real libraries; the simulator\'s all_gather/reduce_scatter cannot be '
                    'cross-validated against gloo (gloo has no reduce_scatter)',
                    'tolerance: 16 sqrt(n) eps32 kappa accumulated over steps; looser than 5e-2 counts as trivial']
-    examples = {'quick': 80, 'thorough': 500}
+    examples = {'quick': 110, 'thorough': 500}
     shards = {'quick': 4, 'thorough': 16}
     shrink_budget_s = {'quick': 30.0, 'thorough': 180.0}
     required_labels = {'quick': ['nontrivial=True', 'model=2', 'clip=active', 'bias_free_col=True'],
